@@ -13,9 +13,6 @@ Lemma beq : forall a b, bytes_eqb a b = true -> a = b.
 Proof. intros a b H. now apply beqb_eq. Qed.
 
 (* ---------- one body part ---------- *)
-Definition part_obs (m : Writer.msg) (p : Writer.part) : pobs :=
-  mkp (Writer.p_ctype p) charset_utf8 (enc_name (Writer.p_enc p))
-      (EmlRoundtrip.expected_content (Writer.p_enc p) (EmlRoundtrip.content_of (p_prod p))).
 
 Lemma step_part_qp : forall ct wire c sub st,
   ct = type_text_plain \/ ct = type_text_html ->
@@ -282,8 +279,6 @@ Proof.
     now rewrite add_parts_app.
 Qed.
 
-Definition file_obs (is_att : bool) (f : Writer.file) : fobs :=
-  mkf (f_name f) (if is_att then [] else bs "<" ++ f_name f ++ bs ">") (EmlRoundtrip.content_of (f_prod f)).
 
 Lemma file_ok_facts : forall f, file_ok f = true ->
   name_ok (f_name f) = true /\ mime_ok (f_mime f) = true /\ wf_bytes (EmlRoundtrip.content_of (f_prod f)) = true.
@@ -461,7 +456,8 @@ Lemma headers_top : forall d i sv F tos ccs extra st2,
              Eml.m_charset st = Eml.m_charset st2 /\ m_enc st = m_enc st2 /\
              Eml.m_parts st = Eml.m_parts st2 /\ m_atts st = m_atts st2 /\ m_embs st = m_embs st2 /\
              m_addrs st = mka [F] tos ccs [] /\
-             map_get (Eml.m_gen st) hdr_subject = Some sv /\ map_get (Eml.m_gen st) hdr_date = Some d.
+             map_get (Eml.m_gen st) hdr_subject = Some sv /\ map_get (Eml.m_gen st) hdr_date = Some d /\
+             Eml.m_gen st = parsed_gen d i sv.
 Proof.
   intros d i sv F tos ccs extra st2 Hd Hi Hsv HF Hto HpF Hpto Hcc Hpd Hl H2 Hg T.
   assert (HTce : hvals T (canon hdr_content_transfer_enc) = []) by (subst T; destruct ccs; reflexivity).
@@ -558,7 +554,8 @@ Lemma body_top_leaf : forall T p m st,
   exists st', parse_body_parts filename_of false
       (entity_of_fnode false (FLeaf (T ++ cpart_fields m p) (encode_body (Writer.p_enc p) (p_prod p)))) st = Ok st' /\
     Eml.m_parts st' = [part_obs m p] /\ m_atts st' = m_atts st /\ m_embs st' = m_embs st /\
-    Eml.m_gen st' = Eml.m_gen st /\ m_addrs st' = m_addrs st.
+    Eml.m_gen st' = Eml.m_gen st /\ m_addrs st' = m_addrs st /\
+    Eml.m_charset st' = charset_utf8 /\ m_enc st' = enc_name (Writer.p_enc p).
 Proof.
   intros T p m st Hm Hp H1 H2. destruct (part_ok_facts m p Hm Hp) as (Hct & Hcty & _ & Hwf & Henc).
   unfold part_obs. rewrite entity_leaf_top. cbn [parse_body_parts].
